@@ -1246,7 +1246,27 @@ func isMapCopier(p *core.Prog, h *ssa.Function) bool {
 				bad = true
 				return
 			}
-			if rg, ok := n.Iter.(*ssa.Range); ok && rg.X == prm && len(core.Lits(core.Guards(x.Block()))) <= 1 {
+			plain := true
+			nOther := 0
+			for _, l := range core.Lits(core.Guards(x.Block())) {
+				if core.IsLoopBound(l) {
+					continue
+				}
+				// "the parameter is not empty" / "not nil": the other outcome returns the empty map
+				if l.Kind == "cmp" {
+					if cl, ok := l.X.(*ssa.Call); ok && core.CalleeName(cl.Common()) == "builtin.len" && cl.Common().Args[0] == prm {
+						continue
+					}
+					if l.X == prm || l.Y == prm {
+						continue
+					}
+				}
+				nOther++
+			}
+			if nOther > 0 {
+				plain = false
+			}
+			if rg, ok := n.Iter.(*ssa.Range); ok && rg.X == prm && plain {
 				filled[mk] = true
 			} else {
 				bad = true
